@@ -3,7 +3,7 @@
 # Applies a seeded change in a scratch worktree of /repo (never in /repo itself), runs the given checks against it
 # through VERIF_REPO, prints their verdict lines, removes the worktree.
 set -u
-name=$1; patch=$2; shift 2
+name=$1; patch=$(realpath $2); shift 2
 wt=/tmp/try_$name
 git -C /repo worktree remove --force $wt 2>/dev/null
 git -C /repo worktree add -q $wt HEAD || exit 2
